@@ -43,6 +43,19 @@ fn int_values(bits: u32, all_small: bool) -> Vec<u64> {
             }
         }
     }
+    // every value with exactly two non-zero decimal digits from {1, 9} (interior zero bytes)
+    for i in 0..20u32 {
+        for j in 0..i {
+            for a in [1u128, 9] {
+                for b in [1u128, 9] {
+                    let x = a * 10u128.pow(i) + b * 10u128.pow(j);
+                    if x <= max as u128 {
+                        v.push(x as u64);
+                    }
+                }
+            }
+        }
+    }
     // the neighbourhood of the maximum
     for d in 0..=300u64 {
         v.push(max - d);
@@ -417,7 +430,7 @@ pub fn run(run: &RunInfo) -> Summary {
         transitions: acc.get("calls"),
         traces_validated: cases,
         distinct_nontrivial: acc.set_len("int_values") + acc.get("tags_representable") + acc.set_len("cp437_chars") + acc.get("bcd_rejected"),
-        rule: "all u8/u16 values and a defined finite set for u32/u64/usize (digit and bit boundaries, 9 mixed patterns per digit count, the 300 values below the maximum) x {LE, BE, BCD}; all 65,536 tags x {BigEndian, Default}; every BCD string of length 0..=5 over nibbles {0,1,9} with optional trailing F and every spelling of max-150..max+1200 for each integer width, decoded as all five integer types; all 256 CP437 bytes in every position of strings of length 1..3; all hex strings of <=2 bytes; receipt numbers 0..=9999 and FFFF. distinct_nontrivial = distinct integer values + representable tags + distinct decoded texts + rejected BCD strings".into(),
+        rule: "all u8/u16 values and a defined finite set for u32/u64/usize (digit and bit boundaries, 9 mixed patterns per digit count, all values with exactly two non-zero digits from {1,9}, the 300 values below the maximum) x {LE, BE, BCD}; all 65,536 tags x {BigEndian, Default}; every BCD string of length 0..=5 over nibbles {0,1,9} with optional trailing F and every spelling of max-150..max+1200 for each integer width, decoded as all five integer types; all 256 CP437 bytes in every position of strings of length 1..3; all hex strings of <=2 bytes; receipt numbers 0..=9999 and FFFF. distinct_nontrivial = distinct integer values + representable tags + distinct decoded texts + rejected BCD strings".into(),
         exhaustive: true,
         required_witnesses: vec![
             "BCD digits beyond an integer's range were rejected".into(),
